@@ -462,7 +462,7 @@ func decodeEntry(buf []byte) ([]sv, error) {
 	rest := buf[n:]
 	ids := bm.ToArray()
 	if len(rest) != 4*len(ids) {
-		return nil, fmt.Errorf("entry holds %d value bytes for %d series", len(rest), len(ids))
+		return nil, fmt.Errorf("entry-%d-values-%d-series", len(rest)/4, len(ids))
 	}
 	out := make([]sv, len(ids))
 	for i, s := range ids {
@@ -594,6 +594,72 @@ func mergeOp(c *core.Ctx, files [][]sv) {
 	}
 }
 
+type mergeJobKey struct {
+	key   uint32
+	files [][]sv
+}
+
+// jobOp: ONE forwardIndexMerger merges several tag keys in turn, as a compaction job of the forward
+// family does (the merger's seriesIDs / scanners / tagValueIDs are reused from key to key).
+func jobOp(c *core.Ctx, jobs []mergeJobKey) {
+	var parts []string
+	for _, j := range jobs {
+		fs := make([]string, len(j.files))
+		for i, f := range j.files {
+			sort.Slice(f, func(a, b int) bool { return f[a].s < f[b].s })
+			fs[i] = fmtSV(f)
+		}
+		parts = append(parts, fmt.Sprintf("%d %s", j.key, strings.Join(fs, " / ")))
+	}
+	op := "fwdjob | " + strings.Join(parts, " | ")
+	got := map[uint32][]sv{}
+	c.Guard(op, func() string {
+		w := newCapture()
+		mg, err := v1.NewForwardIndexMerger(w)
+		if err != nil {
+			return "err " + err.Error()
+		}
+		var outs []string
+		for _, j := range jobs {
+			var bufs [][]byte
+			for _, f := range j.files {
+				b, err := forwardEntry(append([]sv(nil), f...))
+				if err != nil {
+					return "err " + err.Error()
+				}
+				bufs = append(bufs, b)
+			}
+			if err := mg.Merge(j.key, bufs); err != nil {
+				return "err " + err.Error()
+			}
+			es, err := decodeEntry(w.out[j.key])
+			if err != nil {
+				outs = append(outs, fmt.Sprintf("%d=err-%s", j.key, err.Error()))
+				continue
+			}
+			got[j.key] = es
+			outs = append(outs, fmt.Sprintf("%d=%s", j.key, strings.ReplaceAll(fmtSV(es), " ", ",")))
+		}
+		return strings.Join(outs, " ")
+	})
+	ok := true
+	for _, j := range jobs {
+		var want []sv
+		for _, f := range j.files {
+			want = append(want, f...)
+		}
+		sort.Slice(want, func(a, b int) bool { return want[a].s < want[b].s })
+		if fmtSV(want) != fmtSV(got[j.key]) {
+			ok = false
+			c.Fail("forward-merger-job-values", fmt.Sprintf("key %d of a %d-key job: merged %s, inputs hold %s", j.key, len(jobs), fmtSV(got[j.key]), fmtSV(want)))
+			break
+		}
+	}
+	if ok {
+		c.NonTrivial()
+	}
+}
+
 // readerCase: random sparse series ids over up to five containers.
 func readerCase(c *core.Ctx, r *rand.Rand) {
 	c.Op("reset", "ok")
@@ -628,6 +694,24 @@ func readerCase(c *core.Ctx, r *rand.Rand) {
 		files = append(files, gen(1+r.Intn(6)))
 	}
 	mergeOp(c, files)
+	// a compaction job: 2-4 tag keys through one merger; key sizes / container counts vary so that the
+	// pooled buffer left by one key is longer or shorter than the next key's blocks
+	nk := 2 + r.Intn(3)
+	var jobs []mergeJobKey
+	for k := 0; k < nk; k++ {
+		used = map[uint32]bool{}
+		if r.Intn(2) == 0 {
+			highs = r.Perm(6)[:1+r.Intn(5)]
+		}
+		nf := 1 + r.Intn(3)
+		var fs [][]sv
+		for i := 0; i < nf; i++ {
+			fs = append(fs, gen(1+r.Intn(8)))
+		}
+		jobs = append(jobs, mergeJobKey{key: uint32(1 + k*3 + r.Intn(3)), files: fs})
+	}
+	c.Branch(fmt.Sprintf("merger/job-keys-%d", nk))
+	jobOp(c, jobs)
 }
 
 // witnessLut: the third container of a flushed forward entry is read at the wrong offset
